@@ -32,6 +32,13 @@ CHECKS = {
   "note": "Trusted: the reference stack model (dsim/stackmodel.py, ~80 lines), the blueprint evaluator used for verdict truth, the BruteSolver back-end stub following the z3 proxy convention. Formulas are sampled (Bool/BV<=2, depth<=2). The script half has no schedule dimension and rides along on the same generator.",
   "technique": "deterministic simulation: seeded op-history + model-choice tape, reference-model refinement check after every step, plan/tape minimisation and exact replay",
  },
+ "C18": {
+  "category": "exploration",
+  "text": "Seeded simulation of the real generic optimisers (SUA and incremental mix-ins; linear and binary search; single, boxed, lexicographic, Pareto) against a simulated satisfiability peer whose model choice at every step is a scheduling decision on the tape (uniform / adversarial worst-progress / best-progress / first), embedded in user push/pop/assert histories. Optimum, model, 'None iff unsat', Pareto front, termination bound and stack restoration are checked against brute-force enumeration on the harness's own blueprint evaluator. Sampling, not proof.",
+  "design_ref": "DESIGN.md section 4 (C18)",
+  "note": "Trusted: blueprint evaluator (dsim/bp.py), FNode evaluator used inside the peer (dsim/feval.py), reference stack model. Domains are finite and small (<=512 assignments); systems, goals and histories are sampled. Real-valued bisection excluded as the property says.",
+  "technique": "deterministic simulation: optimiser loop vs. tape-scheduled model-choosing peer, brute-force reference oracle, bounded-liveness (solver-call budget), minimisation + exact replay",
+ },
 }
 
 ORDER = ["C04", "C14", "C15", "C16", "C17", "C18", "C19"]
